@@ -68,6 +68,9 @@ func genBattle(r *Rng, maxW int, limits bool) *BattleCase {
 	}
 	m := bc.M
 	bc.P = r.Range(1, 8)
+	if r.Chance(1, 12) {
+		bc.P = m + r.Range(1, m) // more processes than cells
+	}
 	bc.C = r.Range(1, 300)
 	if r.Chance(1, 4) {
 		bc.C = r.Range(1, 12)
